@@ -3,6 +3,8 @@
    naming the operation just performed, its arguments and the value before it.
    OneStep = TRUE : exactly one operation from every start value, so every distinct state is one
                     edge (source value, operation, arguments) of the window model; EmitEdge prints it.
+   AddRun(k) is a macro step: k AddOne calls in a row with no read in between (the harness expands it).
+   Reads (Get, SQN, Overflow) are steps like the others: the behaviours decide which reads happen and when.
    OneStep = FALSE: unrestricted walks for `-simulate file=...` (the behaviour files are read by
                     the harness and stepped through a real Count). *)
 EXTENDS NasCount, Json, TLC
@@ -14,6 +16,11 @@ Window  == {o * 256 + s : o \in WinOvf, s \in 0..255}
 McSqn   == {0, 1, 127, 128, 254, 255}
 McOvf   == {0, 1, 255, 256, 32767, 32768, 65534, 65535}
 McSet   == {<<0, 0>>, <<0, 255>>, <<1, 0>>, <<255, 255>>, <<256, 1>>, <<32767, 255>>, <<32768, 0>>, <<65535, 254>>, <<65535, 255>>}
+\* fewer setter arguments for the random walks, so that increments, runs and reads are chosen often
+SimSqn  == {0, 128, 255}
+SimOvf  == {0, 32768, 65535}
+SimSet  == {<<65535, 254>>, <<32767, 255>>}
+RunLens == IF OneStep THEN {2, 3} ELSE {2, 3, 17}     \* longer runs (up to 300, across every boundary) are recorded by the driver
 Rec(op, a, b) == [op |-> op, a |-> a, b |-> b, pre |-> c]
 GInit == c \in Starts /\ last = [op |-> "Init", a |-> 0, b |-> 0, pre |-> 0]
 GNext == /\ OneStep => last.op = "Init"
@@ -21,6 +28,7 @@ GNext == /\ OneStep => last.op = "Init"
             \/ \E s \in SqnArgs : SetSQN(s) /\ last' = Rec("SetSQN", s, 0)
             \/ \E o \in OvfArgs : SetOverflow(o) /\ last' = Rec("SetOverflow", o, 0)
             \/ AddOne /\ last' = Rec("AddOne", 0, 0)
+            \/ \E k \in RunLens : c' = AddRunF(c, k) /\ last' = Rec("AddRun", k, 0)     \* k increments with no read in between
             \/ \E r \in {"Get", "SQN", "Overflow"} : Read /\ last' = Rec(r, 0, 0)
 GSpec == GInit /\ [][GNext]_gvars
 \* the laws again, as state predicates on (last.pre, c)
